@@ -248,7 +248,7 @@ fn event_model_schema(ev: &rrss::verif::StmtEvent) -> J {
 fn run_one(prog: &J, inp: &[&str]) -> String {
     let naming = Naming::default();
     let program = Builder { naming: &naming }.program(prog);
-    let cfg = RunCfg { input: inp.iter().map(|c| c.as_bytes().to_vec()).collect(), out_budget: None, in_fail_at: None };
+    let cfg = RunCfg { input: inp.iter().map(|c| c.as_bytes().to_vec()).collect(), out_budget: None, in_fail_at: None, no_events: false };
     let obs = exec::run(&program, &cfg);
     let evs: Vec<J> = obs.log.iter().filter_map(|e| match e { Ev::Stmt(s) => Some(event_model_schema(s)), _ => None }).collect();
     let reads = obs.log.iter().filter(|e| matches!(e, Ev::Read(_) | Ev::ReadFail)).count();
